@@ -118,7 +118,7 @@ SPECS = {
     thorough=[S('S%d' % l, 0, M_G, og('CORE'), W, ['--strategies']) for l in (1, 2, 3, 4, 5, 255)] + [S('S3_%d' % l, 0, mf('GUARD_CANCEL', 'GUARD_REQ'), og('CORE'), W, ['--strategies'], share=3.0) for l in (1, 2, 3)] +
              [S('T1', 4, M_G, og('CORE'), W), S('T8', 4, M_G, og('CORE'), W), S('T2', 3, M_G, og('CORE', 'MANUAL'), W), S('T1', 3, M_T, O_T, W)]),
  'C05': dict(
-    quick=[S('I1', 1, M_T, O_T), S('I2', 2, M_T, O_T), S('I4', 1, M_P0, O_P | og('REACT')), S('T1t', 2, M_T, O_T), S('P5t', 1, M_P0, O_P | og('REACT', 'QUERY')), S('N8', 1, M_T, O_T, flags=['--ids=0,3,4,7']), S('N5', 1, M_T, O_T), S('N7p', 1, M_P0, O_P | og('REACT', 'QUERY'), flags=['--ids=0,3,6']), S('T1', 2, M_T, O_T), S('T2', 2, M_TP, O_T | og('MANUAL')), S('T3', 3, M_T, O_T), S('P3', 2, M_P, O_P | og('REACT', 'QUERY')), S('P5', 1, M_P, O_P | og('REACT', 'QUERY')), S('T4', 1, M_T, O_T)],
+    quick=[S('I5', 1, M_T, og('CORE', 'REACT', 'QUERY')), S('I6', 1, M_T, og('CORE', 'REACT', 'QUERY')), S('I8', 1, M_T, og('CORE', 'REACT', 'QUERY')), S('I1', 1, M_T, O_T), S('I2', 2, M_T, O_T), S('I4', 1, M_P0, O_P | og('REACT')), S('T1t', 2, M_T, O_T), S('P5t', 1, M_P0, O_P | og('REACT', 'QUERY')), S('N8', 1, M_T, O_T, flags=['--ids=0,3,4,7']), S('N5', 1, M_T, O_T), S('N7p', 1, M_P0, O_P | og('REACT', 'QUERY'), flags=['--ids=0,3,6']), S('T1', 2, M_T, O_T), S('T2', 2, M_TP, O_T | og('MANUAL')), S('T3', 3, M_T, O_T), S('P3', 2, M_P, O_P | og('REACT', 'QUERY')), S('P5', 1, M_P, O_P | og('REACT', 'QUERY')), S('T4', 1, M_T, O_T)],
     thorough=[S('T1', 3, M_T, O_T, W), S('T2', 3, M_TP, O_T | og('MANUAL'), W), S('T3', 4, M_T, O_T), S('T4', 2, M_T, O_T, W), S('P3', 3, M_P, O_P | og('REACT', 'QUERY'), W), S('P5', 2, M_P, O_P | og('REACT', 'QUERY'), W), S('I1', 2, M_T, O_T, W)]),
  'C06': dict(
     quick=[S('T1r', 2, M_T, O_T), S('P5h', 1, M_P0, O_P | og('SERIAL', 'QUERY')), S('T1t', 2, M_T, O_T | og('REPLAY')), S('T2t', 2, M_TP, O_T | og('PAYLOAD', 'MANUAL')), S('P5t', 1, M_PG, O_P | og('REACT', 'QUERY')), S('N8', 2, M_T, O_T | og('REPLAY'), flags=['--ids=0,3,4,7']), S('N5', 1, M_T, O_T), S('T1', 2, M_T, O_T | og('REPLAY')), S('T2', 2, M_TP, O_T | og('PAYLOAD', 'MANUAL', 'REPLAY', 'SERIAL')), S('T9', 2, M_TP, O_T | og('PAYLOAD')), S('T3', 3, M_T, O_T), S('P5', 1, M_PG, O_P | og('REACT', 'QUERY')), S('T4', 1, M_T, O_T), S('I1', 1, M_T | mf('INJ_DECIDE'), O_T), S('T1', 2, M_TC, og('CORE')), S('A2', 1, mf('PHASE_REQ', 'GUARD_CANCEL', 'REPORT', 'PLAN_EDIT', 'PAYLOAD'), og('CORE', 'PLAN', 'REPORT', 'MANUAL', 'SERIAL', 'REPLAY', 'COPY', 'DESTROY', 'PAYLOAD', 'LOG')), S('A1', 0, mf('PHASE_REQ', 'GUARD_CANCEL', 'REPORT', 'PLAN_EDIT', 'PAYLOAD'), og('CORE', 'PLAN', 'REPORT', 'MANUAL', 'SERIAL', 'REPLAY', 'COPY', 'DESTROY', 'PAYLOAD', 'LOG'))],
